@@ -356,6 +356,11 @@ nextFileMatch:
 	}
 
 	for _, md := range d.repoMetaData {
+		// A tombstoned repository must not show up anywhere in a result, also
+		// not with its name and URL templates.
+		if md.Tombstone {
+			continue
+		}
 		r := md
 		addRepo(&res, &r)
 		for _, v := range r.SubRepoMap {
